@@ -6,8 +6,9 @@ correspondence: per-step refinement of generated histories (Corr/CheckStage.v): 
                 file-system level (vplib/commitabs.py, Model/CommitAbs.v c01_fs_check): for every successful commit
                 the hypotheses of C01_commit_yields_written_object on the abstracted REAL pre-state, written_by_rocflb
                 of the abstracted REAL post-state, and the model's fault-free run against the real result
-known finding:  failed-commit-dedup-persisted (vplib/c01known.py: 4 scripted histories + classifier = c01_failed_commit_dedup
-                of Model/KnownC01.v on the real staged inventory AND an earlier refused commit of that object)
+refused commits: (former known finding failed-commit-dedup-persisted, repaired by 890d206) 4 scripted histories are must-pass;
+                after every refused commit clause I5 is evaluated on the real staged inventory (vplib/c01known.py) and the
+                step is compared with Model/RefusedCommit.v (Corr.CheckStage.check_refused_commit)
 search:         after every commit / upgrade / purge the independent validator (vplib/ocflv.py) on every
                 object and on the storage root, plus the structural clauses of the property
 """
@@ -24,6 +25,7 @@ def hook(run, st):
         beside = sorted(set(os.listdir(run.r.sc.base)) - {"root", "src", "stg"})
         if beside:
             msgs.append("entries created beside the storage root: %r" % (beside,))
+        msgs += c01known.refused_commit_oracle(run, st)
     elif st.rc == "panic":
         msgs = ["operation panicked: %r" % (st.res.get("panic"),)]
     st.findings["C01"] = msgs
@@ -42,5 +44,5 @@ def run(ctx):
     ctx.assumptions.append("file-system clauses: proved for the fault-free commit of the protocol model (C01_commit_yields_written_object, C01_reachable_tree_valid) under commit_pre + commit_pre_tree, which the correspondence evaluates on every real pre-state; storage root files, layout placement, purge and operations under faults are decided by the direct search on executed histories (and by C04/C05/C11/C12)")
     return histcheck.run_history_check(
         ctx, proof, hook2, n, length, final_commit=True, extra_evidence=fs,
-        known_classifier=c01known.classifier, scripted=c01known.scenarios() + hist.hostile_root_scenarios() + hist.upgrade_scenarios(),
+        scripted=c01known.scenarios() + hist.hostile_root_scenarios() + hist.upgrade_scenarios(),
         rule="adaptive random histories over 3 object ids x rotating configurations (8 layout variants, spec 1.0/1.1, sha256/512, content dir, padding, external staging, fresh handle); distinct = distinct (operation, arguments, result class); NotFound steps are trivial")
